@@ -104,6 +104,10 @@ class Prop(common.PropertyCheck):
         for i in range(self.budget(24, 240)):
             yield {'cont': 'sample', 'D': rng.randrange(4, 8), 'N': rng.choice([1, 7]), 'form': ['none', 'list', 'scalar'][i % 3], 'seed': rng.randrange(1 << 30),
                    'at': ['none', 'partial'][i % 2], 'ag': 'none', 'res': 'none', 'bad': None, 'dt': ['I', 'F'][(i // 2) % 2], 'presl': ['even', 'odd', 'third'][i % 3]}
+        # samples with a time channel that has an amplifier setting of its own (gain 0.01, or a log amplifier): "all channels" includes it
+        for i in range(self.budget(18, 180)):
+            yield {'cont': 'sample', 'D': rng.randrange(3, 6), 'N': rng.choice([1, 7]), 'form': ['none', 'none', 'list'][i % 3], 'seed': rng.randrange(1 << 30),
+                   'at': 'none', 'ag': 'none', 'res': 'none', 'bad': None, 'dt': ['I', 'F'][i % 2], 'timech': ['gain', 'log', 'gain'][(i // 2) % 3]}
         for _ in range(self.budget(1, 5)):
             yield {'k': 'big', 'n': (1 << 20) * rng.choice([1, 2]) + rng.randrange(1, 5000), 'seed': rng.randrange(1 << 30)}
 
@@ -129,7 +133,15 @@ class Prop(common.PropertyCheck):
         D, N = case['D'], case['N']
         if case['cont'] == 'sample':
             spec = samples.spec_rich(r, N=N, D=D, datatype=case.get('dt', 'I'), res=[256, 256, 1000][:D] if case.get('many') else None,
-                                     log_channels=[0, 1, 2] if case.get('many') else None)
+                                     log_channels=[0, 1, 2] if case.get('many') else None, time_channel=bool(case.get('timech')))
+            if case.get('timech'):
+                # the clock channel is recorded with a setting of its own, like any other channel
+                spec['extra'] = [kv for kv in spec['extra'] if kv[0] != '$P%dG' % D]
+                if case['timech'] == 'gain' or spec['datatype'] != 'I':
+                    spec['pne'][str(D)] = '0,0'
+                    spec['extra'].append(['$P%dG' % D, '0.01'])
+                else:
+                    spec['pne'][str(D)] = '3,1'
             if case.get('zero_dec'):
                 spec['pne'] = {k: (v if not v.startswith('0,') else r.choice(['0,1', '0,0', '0,0.5', '0,10'])) for k, v in spec['pne'].items()}
             if case.get('cytek'):
